@@ -20,6 +20,25 @@ def make_scene(rng, cid, thorough_dims=False):
     H = rng.choice([0, 1, 2, 3, 4, 5, 6, 8, 12, 16, 24] if not thorough_dims else list(range(0, 25)))
     ops = scene.grid_polygon(rng, max(W, 1), max(H, 1))
     ops = [o for o in ops]
+    if cid % 16 == 15:
+        # the same polygons with some vertices thousands of pixels away from the surface in any direction (still far
+        # inside the 16.16 working range of a straight edge: |x| < 16384 px, |y| < 2^29 quarter rows)
+        far = lambda r, big: r.choice([-1, 1]) * r.choice([300, 2000, 5000, 8191, 8192, 8200, 9000, big]) + r.randrange(-8, 9) / 4.0
+        out = []
+        for o in ops:
+            t = o.split()
+            if t[0] in ("M", "L") and rng.random() < 0.4:
+                x, y = bits_f32(int(t[1])), bits_f32(int(t[2]))
+                c = rng.random()
+                if c < 0.5:
+                    y = far(rng, 30000)
+                elif c < 0.8:
+                    x = far(rng, 12000)
+                else:
+                    x, y = far(rng, 12000), far(rng, 30000)
+                o = "%s %s" % (t[0], scene.fpt(x, y))
+            out.append(o)
+        ops = out
     rule = rng.randrange(2)
     aa = 1 if rng.random() < 0.75 else 0
     return "scene %d %d %d I %s ; fill %s solid ffffffff 3 %d %d" % (cid, W, H, " ".join(["00000000"] * (W * H)),
@@ -70,15 +89,15 @@ def expected(W, H, rule, aa, ops):
                 if y1 <= y < y2:
                     X = Fr(x1) + Fr((y - y1) * (x2 - x1), (y2 - y1))
                     q = (X + Fr(1, 2)).__floor__()
-                    frac = X + Fr(1, 2) - q
-                    err = Fr(y - max(y1, 0) + 2, 16384) + Fr(1, 10 ** 6)
-                    unc = frac < err or 1 - frac < err
-                    act.append((q, w, unc))
+                    # the crate steps the edge from its top (also above the surface) with a slope truncated to 16.16
+                    err = Fr(y - y1 + 2, 16384) + Fr(1, 10 ** 6)
+                    qlo, qhi = (X - err + Fr(1, 2)).__floor__(), (X + err + Fr(1, 2)).__floor__()
+                    act.append((q, w, (qlo - 1, qhi + 1) if qlo != qhi else None))
             for c in range(4 * W):
                 wsum = sum(w for q, w, u in act if q <= c)
                 ins = (wsum != 0) if rule == 0 else (wsum % 2 != 0)
-                # uncertain when an uncertain crossing is at c or c+1 boundary
-                u = any(un and (q == c or q == c + 1 or q - 1 == c) for q, w, un in act)
+                # undetermined when a crossing may round to either side of the cell
+                u = any(un is not None and un[0] <= c <= un[1] for q, w, un in act)
                 px = c // 4
                 if u:
                     rowk[px][1] += 1
@@ -93,9 +112,8 @@ def expected(W, H, rule, aa, ops):
                 if y1 <= y < y2:
                     X = Fr(x1) + Fr((y - y1) * (x2 - x1), (y2 - y1))
                     q = (X + Fr(1, 2)).__floor__()
-                    frac = X + Fr(1, 2) - q
-                    err = Fr(y - max(y1, 0) + 2, 16384) + Fr(1, 10 ** 6)
-                    if frac < err or 1 - frac < err:
+                    err = Fr(y - y1 + 2, 16384) + Fr(1, 10 ** 6)
+                    if (X - err + Fr(1, 2)).__floor__() != (X + err + Fr(1, 2)).__floor__():
                         unc_row = True
                     act.append((q, w))
             if unc_row:
@@ -174,7 +192,7 @@ def nontrivial(sr, i):
     return any(0 < (int(p, 16) >> 24) < 255 for p in px)
 
 
-ASSUME = ["vertices on the quarter-pixel grid within the working range; the oracle's crossing-error allowance is (y - y1 + 2) * 2^-14 "
+ASSUME = ["vertices on the quarter-pixel grid within the working range (|x| <= 12000 px, |y| <= 30000 px exercised); the oracle's crossing-error allowance is (y - y1 + 2) * 2^-14 "
           "quarter pixels (the slope is truncated to 16.16)"]
 
 
